@@ -13,6 +13,7 @@ import (
 	"github.com/jotaen/klog/klog/app/cli"
 	tf "github.com/jotaen/klog/klog/app/cli/terminalformat"
 	"github.com/jotaen/klog/klog/app/cli/util"
+	"github.com/jotaen/klog/klog/parser"
 )
 
 // harness is a scratch directory plus a scripted clock. Commands run through the real
@@ -24,6 +25,8 @@ type harness struct {
 	cfg    app.Config
 	theme  tf.ColourTheme
 	noWarn bool
+	cpus   int
+	inline *string // if set, ReadInputs parses this text instead of reading files
 }
 
 var scratchCounter int64
@@ -59,7 +62,12 @@ func newHarnessEnv(now gotime.Time, configText string, env map[string]string, cp
 	if err != nil {
 		panic("harness: invalid config: " + err.Error() + ": " + err.Details())
 	}
-	return &harness{dir: dir, now: now, cfg: cfg, theme: cfg.ColourScheme.Value()}
+	return &harness{dir: dir, now: now, cfg: cfg, theme: cfg.ColourScheme.Value(), cpus: cpus}
+}
+
+// newInlineHarness creates a harness without any files: ReadInputs parses text directly.
+func newInlineHarness(now gotime.Time, text string, cpus int, theme tf.ColourTheme) *harness {
+	return &harness{dir: "/nonexistent/klog-verif", now: now, cfg: app.NewDefaultConfig(theme), theme: theme, cpus: cpus, inline: &text}
 }
 
 func (h *harness) Close() { os.RemoveAll(h.dir) }
@@ -89,7 +97,23 @@ type hctx struct {
 }
 
 func (c *hctx) Now() gotime.Time { return c.h.now }
-func (c *hctx) Print(s string)    { c.out.WriteString(s) }
+func (c *hctx) Print(s string)   { c.out.WriteString(s) }
+
+// ReadInputs parses the inline text (if any) with the engine the real context would select.
+func (c *hctx) ReadInputs(files ...app.FileOrBookmarkName) ([]klog.Record, app.Error) {
+	if c.h.inline == nil {
+		return c.Context.ReadInputs(files...)
+	}
+	p := parser.NewSerialParser()
+	if c.h.cpus > 1 {
+		p = parser.NewParallelParser(c.h.cpus)
+	}
+	records, _, errs := p.Parse(*c.h.inline)
+	if len(errs) > 0 {
+		return nil, app.NewParserErrors(errs)
+	}
+	return records, nil
+}
 
 // Ctx builds a fresh context (a fresh "process").
 func (h *harness) Ctx() *hctx {
